@@ -37,8 +37,9 @@ ASSUMPTIONS = [
     'in-out ports / BidirWire are outside the statement ("ordinary (unidirectional) wire") and not inspected',
 ]
 BOUNDS = {
-    'quick': 'seq: depth 4, <= 3 wires, names x/y, children u/v/k/c; blk: catalogue at width 2 (see shards)',
-    'thorough': 'seq: depth 6, <= 3 wires (depth 5 with <= 4 wires); blk: catalogue at widths 2 and 3',
+    'quick': 'seq: all operation sequences up to depth 5 with <= 3 wires alive (names x/y in top or child c; children '
+             'u/v/k/c); blk: 102 catalogue designs at width 2, every single fault of each',
+    'thorough': 'seq: depth 7 with <= 4 wires; blk: catalogue at widths 2 and 3',
 }
 TIERS = {
     'quick': {'seq': [(5, 3)], 'L': 2, 'widths': (2,)},
@@ -177,6 +178,9 @@ def check_transition(hist, op, pre):
         det = {'model_outcome': outcome, 'raised': exc, 'model': repr(post.key())[:1500], 'live': repr(got)[:1500]}
         if exc is None:
             return {'violation': ('structure', det), 'post': None}
+        if got == pre.key():
+            # refused without any side effect (cleaner than the modelled residue): nothing to expand
+            return {'kind': 'raise' if conf else 'refused', 'post': pre, 'conf': conf, 'exc': exc}
         return {'diverged': det, 'post': None}
     kind = 'ok' if exc is None else ('raise' if conf else 'refused')
     return {'kind': kind, 'post': post, 'conf': conf, 'exc': exc}
@@ -244,7 +248,10 @@ def run_seq(d):
                 res['traces_validated_against_impl'] += 1
                 if 'violation' in r:
                     kind, det = r['violation']
-                    sig = 'C11:seq:%s:%s' % (kind, op[0])
+                    opname = op[0]
+                    if op[0] in ('rename', 'reparent', 'reparentAndRename') and not net.registered(op[1]):
+                        opname += '-of-wire-dropped-by-refused-call'
+                    sig = 'C11:seq:%s:%s' % (kind, opname)
                     outcomes.add('violation')
                     if sig not in seen_sig:      # BFS: the first one is a shortest one in this shard
                         seen_sig.add(sig)
